@@ -205,14 +205,46 @@ func VerifC13_SignVerifyRoundTrip() {
 
 // (c) the real Sig_structure/MAC_structure encoders are injective in
 // (protected alg, external data, payload).
-func VerifC13_StructureInjective() {
+func VerifC13_StructureInjective() { vStructureInjective(false) }
+
+// the same with a second protected entry that may be null-valued: every protected
+// entry is covered by the signature / MAC.
+func VerifC13_ProtectedEntries() { vStructureInjective(true) }
+
+func vStructureInjective(withExtras bool) {
 	verif.NoPanic()
-	verif.Bound("C13c", "two structures, alg any int64, external data and payload each 0..2 bytes (all length combinations), contexts Signature1 and MAC0")
-	enc := func(tag string) ([]byte, int64, []byte, []byte) {
+	if withExtras {
+		verif.Bound("C13c entries", "two structures, protected header {1: alg any int64} plus an optional second entry (label 99: absent / null / 0..23), external data and payload 1 byte each, contexts Signature1 and MAC0")
+	} else {
+		verif.Bound("C13c", "two structures, protected header {1: alg any int64}, external data and payload each 0..2 bytes (all length combinations), contexts Signature1 and MAC0")
+	}
+	enc := func(tag string) ([]byte, int64, []byte, []byte, int) {
 		alg := verif.I64("alg" + tag)
-		aad := verif.Bytes("aad"+tag, verif.Choose("naad"+tag, 3))
-		pl := verif.Bytes("pl"+tag, verif.Choose("npl"+tag, 3))
-		prot, err := newEmptyOrSerializedMap(HeaderMap{AlgLabel: alg})
+		var aad, pl []byte
+		if withExtras {
+			aad, pl = verif.Bytes("aad"+tag, 1), verif.Bytes("pl"+tag, 1)
+		} else {
+			aad = verif.Bytes("aad"+tag, verif.Choose("naad"+tag, 3))
+			pl = verif.Bytes("pl"+tag, verif.Choose("npl"+tag, 3))
+		}
+		hm := HeaderMap{AlgLabel: alg}
+		protRef := vRefProtected(alg)
+		// a second protected entry (label 99): absent / CBOR null / a small unsigned integer
+		extra := 0
+		if withExtras {
+			extra = verif.Choose("extra"+tag, 3)
+		}
+		switch extra {
+		case 1:
+			hm[Label{Int64: 99}] = nil
+			protRef = append(append([]byte{0xa2}, protRef[1:]...), 0x18, 0x63, 0xf6)
+		case 2:
+			x := verif.U8("extraval" + tag)
+			verif.Assume(x < 24)
+			hm[Label{Int64: 99}] = x
+			protRef = append(append([]byte{0xa2}, protRef[1:]...), 0x18, 0x63, x)
+		}
+		prot, err := newEmptyOrSerializedMap(hm)
 		verif.Assert(err == nil, "protected header serialises")
 		var b []byte
 		if verif.Ghost("ctx") == nil {
@@ -225,15 +257,16 @@ func VerifC13_StructureInjective() {
 		if verif.Ghost("ctx") != nil {
 			ref = "MAC0"
 		}
-		verif.Assert(verif.BytesEq(b, vRefStructure(ref, vRefProtected(alg), aad, pl)), "structure bytes equal the RFC 8152 reference encoding")
-		return b, alg, aad, pl
+		verif.Assert(verif.BytesEq(b, vRefStructure(ref, protRef, aad, pl)), "structure bytes equal the RFC 8152 reference encoding (every protected entry, including null-valued ones, is covered)")
+		return b, alg, aad, pl, extra
 	}
 	if verif.Choose("mac", 2) == 1 {
 		verif.SetGhost("ctx", 1)
 	}
-	b1, a1, d1, p1 := enc("1")
-	b2, a2, d2, p2 := enc("2")
+	b1, a1, d1, p1, x1 := enc("1")
+	b2, a2, d2, p2, x2 := enc("2")
 	if verif.BytesEq(b1, b2) {
+		verif.Assert(x1 == x2, "equal structure bytes => the same set of protected entries")
 		verif.Assert(a1 == a2, "equal structure bytes => equal protected algorithm")
 		verif.Assert(verif.BytesEq(d1, d2), "equal structure bytes => equal external data")
 		verif.Assert(verif.BytesEq(p1, p2), "equal structure bytes => equal payload")
